@@ -308,7 +308,7 @@ pub fn pfs_order_ok(trace: &[(Arc3, bool)], r: usize, all: &Adj, vals: &[i8], ma
     let mut expanded = vec![false; n];
     discovered[r] = true;
     let mut cur: Option<usize> = None;
-    for (i, (a, ok)) in trace.iter().enumerate() {
+    for (_i, (a, ok)) in trace.iter().enumerate() {
         let x = a.0 as usize;
         if cur != Some(x) {
             // a new expansion starts
